@@ -223,7 +223,7 @@ pub fn pos_expect(slots_after: [Slot; 2], parity: usize, airborne: bool) -> PosE
     let (a, b) = (slots_after[0], slots_after[1]);
     let (Slot::Known { lat: la0, lon: lo0, age: ag0 }, Slot::Known { lat: la1, lon: lo1, age: ag1 }) = (a, b) else {
         if a == Slot::Unknown || b == Slot::Unknown {
-            return PosExpect::Skip("a slot was touched by a DF18 frame");
+            return PosExpect::Skip("a slot was touched by a DF18 or surface frame");
         }
         return PosExpect::Unchanged("single frame");
     };
